@@ -88,7 +88,18 @@ func (ms *memstore) GetMeta(baseUrl HttpBaseUrl, bucket string, filename string)
 }
 
 func (ms *memstore) Add(bucket string, filename string, contents []byte, meta *storage.Object) error {
-	_ = ms.CreateBucket(bucket)
+	// Create the bucket if needed and keep hold of it: a concurrent bucket delete
+	// must not leave us with a nil bucket.
+	ms.mu.Lock()
+	b := ms.buckets[bucket]
+	if b == nil {
+		b = &memBucket{
+			created: time.Now(),
+			files:   btree.New(16),
+		}
+		ms.buckets[bucket] = b
+	}
+	ms.mu.Unlock()
 
 	InitScrubbedMeta(meta, filename)
 	meta.Metageneration = 1
@@ -101,7 +112,6 @@ func (ms *memstore) Add(bucket string, filename string, contents []byte, meta *s
 		meta.TimeCreated = meta.Updated
 	}
 
-	b := ms.getBucket(bucket)
 	b.mu.Lock()
 	defer b.mu.Unlock()
 	b.files.ReplaceOrInsert(&memFile{
